@@ -17,7 +17,7 @@ structure InvV (cfg : Cfg) (s : St) : Prop where
   Vh : ∀ k v, (k, v) ∈ s.heap → (k, v) ∈ s.fEnded
   Vres : ∀ k v, NextRes.val k v ∈ s.results → (k, v) ∈ s.fEnded
   RV : s.results.filterMap valIdx = List.range (cnt isVal s.results)
-  HV : ∀ v, (s.disp = .acquire v ∨ s.disp = .parked v ∨ s.disp = .sendIn v) → s.srcItems[s.dispI]? = some v
+  HV : ∀ v, (s.disp = .acquire v ∨ s.disp = .checked v ∨ s.disp = .parked v ∨ s.disp = .sendIn v) → s.srcItems[s.dispI]? = some v
   BG : ∀ k a, (k, a) ∈ s.fBegun → s.srcItems[k]? = some a
 
 theorem invV_init (cfg : Cfg) : InvV cfg (Iter.init cfg) := by
@@ -194,8 +194,13 @@ theorem progress {cfg : Cfg} (hs : cfg.code.Sound) (hg : 1 ≤ cfg.gmp) {s : St}
   | inNext => exact Or.inr (Or.inr hd)
   | acquire v =>
     refine Or.inl ⟨.dAcquire, rfl, ?_⟩
-    simp only [En, Iter.step, hd, hs.waits]
+    simp only [En, Iter.step, hd, hs.waits, hs.sectionsAtomic]
     split <;> simp
+  | checked v =>
+    -- the lock sections are atomic: there is no state between the dispatcher's check and its parking
+    exfalso
+    have := hA.NC
+    simp [hd, dChecked] at this
   | parked v =>
     exfalso
     have hpk := hA.PK (by simp [hd, dParked])
